@@ -60,6 +60,15 @@ CHECKS["C20"] = dict(
 )
 
 
+# a release build (g++ -O2 -DNDEBUG, ASan+UBSan): what users of a header-only library actually compile. Work done inside assert(), behaviour that
+# depends on the optimiser (type punning, uninitialised members) and g++-only overload choices show here and not in the -O0/-O1 clang build.
+def _release(only_type, flavour="gasan"):
+    # (g++ 12 -O2 with ASan crashes in its inliner on some generated codec translation units - an internal compiler error, not a finding - so the codec
+    #  engine's release build uses clang++)
+    return {"flavour": flavour, "flags": ["-O2", "-DNDEBUG"], "only_type": only_type, "prefix": "release", "label": "release build (%s -O2 -DNDEBUG)" % ("g++" if flavour == "gasan" else "clang++"), "counter_prefix": "release_build_"}
+
+
+
 # ------------------------------------------------------------------ codec engine (C01-C06, C10, C11)
 def gen_codec(prop, tier, seed):
     import typegen
@@ -99,7 +108,7 @@ _codec_check(
     {"quick": 3000, "thorough": 30000}, ["c01_values", "c01_sequences", "c01_reader_FdReader", "c01_reader_BoundedReader<Chunked>", "c01_writer_ConstexprBufferWriter", "c01_oversize_logical_buffer_writes", "cases_on_unbounded_buffer_types", "forms_writer_form_runs", "forms_reader_form_runs", "c01_sequences_ending_the_stream", "c01_sequences_read_into_one_object", "fd_storm_writes", "fd_storm_reads", "fd_storm_signals_delivered"],
     "exploration: 10^4-10^5 generated (type, value-sequence) cases, each decided exactly (value tree equality, exact consumed length) on every shipped writer x reader kind, with ASan/UBSan watching the same executions. Types, values and pairings are unbounded sets; sampling with exact per-case oracles is the level this technique reaches.",
     "trusts the independent reflection (vlib/reflect.h + generated Reflect specialisations) to read/write C++ objects faithfully; pairings are exercised per kind through identical bytes rather than as a literal cross product",
-    "runtime round-trip oracle on every shipped reader/writer kind under ASan/UBSan, generated type corpus")
+    "runtime round-trip oracle on every shipped reader/writer kind under ASan/UBSan, generated type corpus", second_build=_release("forms:*", "asan"))
 
 _codec_check(
     "C03", "exploration",
@@ -171,7 +180,7 @@ _codec_check(
     {"quick": 50000, "thorough": 500000}, ["c10_write_faults", "c10_read_faults", "c10_rpc_sender_write_faults", "c10_rpc_sender_read_faults", "c10_rpc_dispatch_read_faults", "c10_rpc_dispatch_write_faults", "c10_fault_at_Prepare_w", "c10_fault_at_Ensure_r", "c10_fault_at_Skip_r", "c10_fault_at_PushHandle_w", "c10_fault_at_GetHandle_r", "forms_write_faults", "forms_read_faults", "c10_values_above_64KiB", "forms_writer_shapes_written", "forms_writer_shape_faults", "forms_writer_shape_refusals", "forms_reader_shapes_read", "forms_reader_shape_faults"],
     "fault enumeration: for each generated value every primitive-call index is failed with every error code (exhaustive in k per value); types and values are sampled.",
     "the instrumented LogReader/LogWriter implement the documented Reader/Writer interface",
-    "exhaustive fail-at-k injection through instrumented reader/writer with call-log oracle")
+    "exhaustive fail-at-k injection through instrumented reader/writer with call-log oracle", second_build=_release("forms:*", "asan"))
 
 _codec_check(
     "C11", "exploration",
@@ -196,7 +205,7 @@ def gen_life(prop, tier, seed):
 ENGINE_KIND["life"] = ("C++ harness (ASan+UBSan): shadow-model interpreters over operation histories (bounded-exhaustive + random) with a lifetime registry of tracked element "
                        "types, counting handle policy, instrumented reader/writer for out-of-band handle transfer")
 _life = dict(engine="life", flavour="asan", gen=gen_life, sources=["engines/life/main.cpp"])
-_life_gxx = dict(second_build={"flavour": "gasan", "only_type": "special"})   # the special scenarios are repeated with the engine built by g++ (ASan+UBSan)
+_life_gxx = dict(second_build=[{"flavour": "gasan", "only_type": "special"}, _release("special")])   # the special scenarios are repeated with the engine built by g++ (ASan+UBSan)
 
 CHECKS["C12"] = dict(
     _life, **_life_gxx, level="exploration",
